@@ -138,15 +138,24 @@ func c18Case(res *core.Result, rng *rand.Rand, t reflect.Type, v reflect.Value, 
 			pos = rng.Intn(nd + 1)
 		}
 		q := []string{}
+		key := []string{"k", "k", "k[]", "键", "k k", "k+1"}[rng.Intn(6)] // names that need percent-encoding too
 		for d := 0; d < nd+1; d++ {
 			if d == pos {
-				q = append(q, "k="+url.QueryEscape(s))
+				q = append(q, url.QueryEscape(key)+"="+url.QueryEscape(s))
 			} else {
 				q = append(q, fmt.Sprintf("d%d=%s", d, url.QueryEscape([]string{"x", "", "a&k=zzz", "k"}[rng.Intn(4)])))
 			}
 		}
 		u := "http://h.example/p?" + strings.Join(q, "&")
-		add("url-enc-decoys", drive.Call(func() error { return valid.Url(u, valid.RM{"k": rules}) }))
+		rulesK := rules
+		if key != "k" && s != "" {
+			rulesK = "required|m_req_key," + rules // the parameter is present: required must not fire (unless the value is empty, as for every carrier)
+		}
+		o := drive.Call(func() error { return valid.Url(u, valid.RM{key: rulesK}) })
+		if key != "k" && s != "" && !o.Nil && strings.Contains(o.Err, "m_req_key") {
+			res.Violate("C18|url-enc-decoys|present-parameter-reported-missing", fmt.Sprintf("Url(%q) with a rule on parameter %q reports it as required although it is present and non-empty: %s", u, key, trunc(o.Err, 300)), map[string]string{"url": u, "key": key, "rules": rulesK, "returned": o.Err})
+		}
+		add("url-enc-decoys", o)
 	}
 	res.Eval()
 	// majority / reference for the witness
